@@ -277,6 +277,28 @@ def handle(cmd, args):
         if r is None:
             return 'none'
         return '(some (' + ' '.join(sx.pat_to_s(pyconv.from_py(v, None, False)) for v in r) + '))'
+    if cmd == 'nary':
+        # the real destructor, called as its callers do (through its @cache)
+        from proof_generation.proofs.kore import deconstruct_nary_application
+        h, av = deconstruct_nary_application(npat(args[0]))
+        return '(some %s (%s))' % (sx.pat_to_s(pyconv.from_py(h, None, False)),
+                                   ' '.join(sx.pat_to_s(pyconv.from_py(a, None, False)) for a in av))
+    if cmd == 'law-nary-transparent':
+        # destructuring, then expanding head and arguments = expanding, then destructuring (REAL code only)
+        from proof_generation.proofs.kore import deconstruct_nary_application
+        p = npat(args[0])
+        h, av = deconstruct_nary_application(p)
+        h2, av2 = deconstruct_nary_application(expand_obj(p))
+        bad = []
+        if full(h) != full(h2):
+            bad.append('head %s %s' % (sx.pat_to_s(full(h)), sx.pat_to_s(full(h2))))
+        if len(av) != len(av2):
+            bad.append('arity %d %d' % (len(av), len(av2)))
+        else:
+            for i, (a, b) in enumerate(zip(av, av2)):
+                if full(a) != full(b):
+                    bad.append('arg %d %s %s' % (i, sx.pat_to_s(full(a)), sx.pat_to_s(full(b))))
+        return 'true' if not bad else '(false %s)' % ' '.join('(%s)' % b for b in bad)
     from harness.py import py_module
     r = py_module.handle(cmd, args)
     if r is not None:
